@@ -239,11 +239,52 @@ def repository_cases():
     return out
 
 
+def chain_variants(rec, batch):
+    """Sub-grammars: the in-memory chain vs parent and child sources written out and executed in
+    the isolated interpreter (the emitted child source may import only its parent module)."""
+    from . import c13
+    import sys
+    for tag, mode, levels in c13.curated_chains():
+        grammars = c13.build_curated(levels, dotted=False)
+        descs = [gast.render_grammar(G) for G in grammars]
+        mods = []
+        ok = True
+        for d in descs:
+            r = observe.compile_grammar(d, include_source=True)
+            if r[0] != 'ok':
+                ok = False
+                break
+            mods.append(r[1])
+        for G in grammars:
+            sys.modules.pop(G['name'], None)
+        if not ok:
+            rec.drop()
+            continue
+        g = mods[-1]
+        tokens, ign = c13.alphabet_of(grammars, mode)
+        ins = list(gen.all_strings(tokens[:5], 2))[:40]
+        try:
+            ins += [t for t in gen.Sampler(rec.rng, grammars, ign).sentences('start', 25) if len(t) <= 14]
+        except Exception:
+            pass
+        calls = [(None, t, 0, True) for t in ins]
+        expected = [call_outcome(g, e, t, p, f) for e, t, p, f in calls]
+        rec.case(len(calls))
+        rec.count('chain_descriptions')
+        for c in calls:
+            rec.nontrivial((descs[-1], c[1]))
+        batch.add('chain', [[G['name'], m._source_code] for G, m in zip(grammars, mods)], calls, expected,
+                  dict(kind='variants', desc='\n||\n'.join(descs), tag=str(('chain', tag)), variant='chain-isolated'))
+
+
 def run_shard(rec):
     quick = rec.tier == 'quick'
     rec.deadline = time.time() + (60 if quick else 800)
     batch = Batch()
     idx = 0
+    if rec.shard == 1 or not quick:
+        chain_variants(rec, batch)
+        batch.run(rec)
     for origin, d, strings in repository_cases():
         idx += 1
         if not rec.mine(idx):
